@@ -298,18 +298,18 @@ def nearest_history(l1: int, a1: int, b1: int, c1: int, x1: Optional[str], l2: i
     if eqs and not (r == v):
         return False
     return True
-''', timeout=90, what='nearest() after an earlier nearest() of another version: still official, equal when one exists')
+''', timeout=50, what='nearest() after an earlier nearest() of another version: still official, equal when one exists')
 
 h('nearest_history_text', r'''
 def nearest_history_text(a1: int, b1: int, s1: int, a2: int, b2: int, s2: int) -> bool:
     """
-    pre: 1 <= a1 <= 4 and 0 <= b1 <= 1 and 0 <= s1 < 6 and 1 <= a2 <= 4 and 0 <= b2 <= 1 and 0 <= s2 < 6
+    pre: 1 <= a1 <= 3 and 0 <= b1 <= 1 and 0 <= s1 < 6 and 1 <= a2 <= 3 and 0 <= b2 <= 1 and 0 <= s2 < 6
     post: _
     """
     reset_modstate()
     sfx = ['', 'a', 'rc1', '.0', '.0a', '.1']
     t1 = t2 = None
-    for A in range(1, 5):
+    for A in range(1, 4):
         for B in range(0, 2):
             for S in range(6):
                 if a1 == A and b1 == B and s1 == S:
@@ -374,10 +374,14 @@ def run(chk):
     for x in hs:
         x.timeout = x.timeout * scale
     prelude = PRELUDE.replace('@MAXX@', '1' if chk.tier == 'quick' else '2').replace('@CATMINL@', '1')
-    xhair.run_harnesses(chk, prelude, [x for x in hs if x.name not in SYMX_HARNESSES])
     sx = [x for x in hs if x.name in SYMX_HARNESSES]
-    if sx:
-        symrun.run_harnesses(chk, prelude, sx)
+    import threading
+    th = threading.Thread(target=lambda: symrun.run_harnesses(chk, prelude, sx)) if sx else None      # the two engines work side by side
+    if th:
+        th.start()
+    xhair.run_harnesses(chk, prelude, [x for x in hs if x.name not in SYMX_HARNESSES])
+    if th:
+        th.join()
     return chk.finish(rule='one CrossHair condition per harness function; each is explored path by path with z3 deciding '
                            'feasibility of every branch over symbolic ints/strings; distinct_nontrivial = harnesses whose '
                            'reachability twin was refuted (non-vacuous) and that were explored without counterexample',
